@@ -1,0 +1,76 @@
+//go:build verif
+
+// Contracts for the deductive checks under /verif (comment-only; no code).
+
+package trickle
+
+// ---- C08: where Append resumes is the inverse of where the fill loops stop --------------------
+// fillTrickleRec: first maxlinks leaves, then for depth = 1, 2, ... depthRepeat (4) sub-trees of
+// that depth. While it is at (depth, repeatIndex) the node has maxlinks + 4*(depth-1) + repeatIndex
+// children. trickleDepthInfo recovers (depth, repeat) from the number of children.
+//@ func trickleDepthInfo
+//@   prop C08
+//@   arith int
+//@   safety div
+//@   requires node != nil && maxlinks >= 1
+//@   ensures[leaf_layer_incomplete] childCount(node) < maxlinks ==> depth == 0 && repeatNumber == 0
+//@   ensures[inverse_of_fill] childCount(node) >= maxlinks ==> depthRepeat * (depth - 1) + repeatNumber == childCount(node) - maxlinks
+//@   ensures[repeat_in_range] childCount(node) >= maxlinks ==> 0 <= repeatNumber && repeatNumber < depthRepeat && depth >= 1
+
+//@ func fillTrickleRec
+//@   prop C08 C07
+//@   arith int-assumed
+//@   requires db != nil && node != nil && childCount(node) == 0 && db.maxlinks >= 1
+//@   modifies childCount(node), exhausted(db)
+//@   loop 0 invariant[full_depths] depth >= 1 && (exhausted(db) || childCount(node) == db.maxlinks + depthRepeat * (depth - 1))
+//@   loop 0 invariant[never_wider] childCount(node) <= db.maxlinks + depthRepeat * (depth - 1) && (maxDepth >= 1 ==> depth <= maxDepth)
+//@   loop 1 invariant[position] 0 <= repeatIndex && repeatIndex <= depthRepeat && childCount(node) == db.maxlinks + depthRepeat * (depth - 1) + repeatIndex
+//@   site[subtree_depth] call:fillTrickleRec : arg2 == depth && childCount(arg1) == 0
+//@   loop 0 invariant[monotone_end] old(exhausted(db)) ==> exhausted(db)
+//@   loop 1 invariant[monotone_end] old(exhausted(db)) ==> exhausted(db)
+//@   ensures[monotone_end] old(exhausted(db)) ==> exhausted(db)
+//@   ensures[width_bound] err == nil && maxDepth >= 1 ==> childCount(node) <= db.maxlinks + depthRepeat * (maxDepth - 1)
+
+// ---- C08: every sub-tree Append creates or refills gets the depth of its position ------------
+// layout rule: the child at index ml + k (k >= 0) is a trickle sub-tree of depth k/depthRepeat + 1.
+//@ macro depthOfNext(parent, db, d) = childCount(parent) >= db.maxlinks && depthRepeat * (d - 1) <= childCount(parent) - db.maxlinks && childCount(parent) - db.maxlinks < depthRepeat * d
+//@ macro depthOfLast(parent, db, d) = childCount(parent) > db.maxlinks && depthRepeat * (d - 1) <= childCount(parent) - 1 - db.maxlinks && childCount(parent) - 1 - db.maxlinks < depthRepeat * d
+
+//@ func appendFillLastChild
+//@   prop C08
+//@   arith int-assumed
+//@   requires db != nil && fsn != nil && db.maxlinks >= 1 && childCount(fsn) >= 0
+//@   requires[position] childCount(fsn) >= db.maxlinks ==> depthRepeat * (depth - 1) + repeatNumber == childCount(fsn) - db.maxlinks && 0 <= repeatNumber && repeatNumber < depthRepeat
+//@   modifies childCount(fsn), exhausted(db)
+//@   site[last_child_depth] call:appendRec : depthOfLast(fsn, db, arg3)
+//@   loop 0 invariant[position] old(repeatNumber) <= repeatNumber && 0 <= repeatNumber && repeatNumber <= depthRepeat && childCount(fsn) == db.maxlinks + depthRepeat * (depth - 1) + repeatNumber
+//@   loop 0 invariant[monotone_end] old(exhausted(db)) ==> exhausted(db)
+//@   site[new_subtree_depth] call:fillTrickleRec : depthOfNext(fsn, db, arg2)
+//@   ensures[short_node_untouched] err == nil && old(childCount(fsn)) <= db.maxlinks ==> childCount(fsn) == old(childCount(fsn))
+//@   ensures[layer_completed] err == nil && !exhausted(db) && old(childCount(fsn)) > db.maxlinks ==> childCount(fsn) == ite(old(repeatNumber) != 0, db.maxlinks + depthRepeat * depth, old(childCount(fsn)))
+//@   ensures[never_shrinks] err == nil ==> childCount(fsn) >= old(childCount(fsn))
+//@   ensures[monotone_end] old(exhausted(db)) ==> exhausted(db)
+
+//@ func appendRec
+//@   prop C08
+//@   arith int-assumed
+//@   requires db != nil && fsn != nil && db.maxlinks >= 1 && childCount(fsn) >= 0
+//@   requires[real_depth] maxDepth >= 1
+//@   modifies childCount(fsn), exhausted(db)
+//@   loop 0 invariant[full_depths] i >= 1 && (exhausted(db) || childCount(fsn) == db.maxlinks + depthRepeat * (i - 1))
+//@   loop 1 invariant[position] i >= 1 && 0 <= j && j <= depthRepeat && i < maxDepth && childCount(fsn) == db.maxlinks + depthRepeat * (i - 1) + j
+//@   site[new_subtree_depth] call:fillTrickleRec : depthOfNext(fsn, db, arg2) && arg2 < maxDepth
+//@   loop 0 invariant[monotone_end] old(exhausted(db)) ==> exhausted(db)
+//@   loop 1 invariant[monotone_end] old(exhausted(db)) ==> exhausted(db)
+//@   ensures[same_node] err == nil ==> result0 == fsn
+//@   ensures[monotone_end] old(exhausted(db)) ==> exhausted(db)
+
+//@ func Append
+//@   prop C08
+//@   arith int-assumed
+//@   requires db != nil && db.maxlinks >= 1
+//@   modifies all
+//@   site[refill_position] call:appendFillLastChild : childCount(arg1) >= db.maxlinks && depthRepeat * (arg2 - 1) + arg3 == childCount(arg1) - db.maxlinks
+//@   loop 0 invariant[full_depths] i >= 1 && (exhausted(db) || childCount(fsn) == db.maxlinks + depthRepeat * (i - 1))
+//@   loop 1 invariant[position] i >= 1 && 0 <= j && j <= depthRepeat && childCount(fsn) == db.maxlinks + depthRepeat * (i - 1) + j
+//@   site[new_subtree_depth] call:fillTrickleRec : depthOfNext(fsn, db, arg2)
